@@ -4,8 +4,9 @@ import (
 	"fmt"
 	"math"
 	"reflect"
-	"regexp"
 	"strconv"
+	"strings"
+	"unicode/utf8"
 
 	ucfg "github.com/elastic/go-ucfg"
 
@@ -24,10 +25,23 @@ import (
 //	            R%4 = 3            a named type of the same kind
 //	            (R/16)%4 = 2, 3    one / two pointer levels
 //	nil:        R%4 = 0 untyped nil, 1 nil *int, 2 nil map, 3 nil slice (2 and 3 only if nilConts)
+//
+// Struct representations (R%8 = 2, 7; forced for an object that holds a key
+// twice) carry a layout in R>>6, see layoutOf: the keys of the object, in
+// their order, are cut into up to three runs, each of which is either a run
+// of tagged fields or one inline member (maps of several types, structs,
+// pointers, an interface{}-typed field, a struct nested in an inline struct).
+// Every field is tagged under all of tagNames: the tag the options of the
+// case select (primary) names the keys of the tree, the others carry names
+// made by altTag.
 type builder struct {
 	opts     []ucfg.Option
 	used     map[string]int
 	nilConts bool // nil nodes may be spelled as nil map / nil slice (an empty container, not a nil value)
+	primary  int  // index into tagNames of the tag that carries the keys of the tree
+	scheme   int  // how the other tags name the fields (altTag)
+	sep      string
+	noConfig bool // no embedded *Config (it is normalised when it is built, under the options of that moment)
 }
 
 type (
@@ -42,9 +56,226 @@ type (
 )
 
 var (
-	tIface  = reflect.TypeOf((*interface{})(nil)).Elem()
-	tagSafe = regexp.MustCompile(`^[\pL\pN_. -]+$`)
+	tIface = reflect.TypeOf((*interface{})(nil)).Elem()
 )
+
+// structable reports whether every key of the object can be written in a
+// struct tag: not empty (an empty name selects the lower-cased field name)
+// and free of commas (which separate the name from the tag options).
+func structable(t *gen.Tree) bool {
+	if len(t.Keys) == 0 {
+		return false
+	}
+	for _, k := range t.Keys {
+		if k == "" || strings.Contains(k, ",") || !utf8.ValidString(k) {
+			return false
+		}
+	}
+	return true
+}
+
+func sameKeyTwice(t *gen.Tree) bool {
+	for i, k := range t.Keys {
+		for _, k2 := range t.Keys[:i] {
+			if k == k2 {
+				return true
+			}
+		}
+	}
+	return false
+}
+
+func sameKeyTwiceBelow(t *gen.Tree) bool {
+	if t.K == "obj" && sameKeyTwice(t) {
+		return true
+	}
+	for _, v := range t.Vals {
+		if sameKeyTwiceBelow(v) {
+			return true
+		}
+	}
+	return false
+}
+
+// asStruct reports whether the builder writes the object as a struct.
+func asStruct(t *gen.Tree) bool {
+	if t.K != "obj" || !structable(t) {
+		return false
+	}
+	return t.R%8 == 2 || t.R%8 == 7 || sameKeyTwice(t)
+}
+
+// seg is a run of keys of a struct representation: tagged fields (kind 0) or
+// one inline member.
+type seg struct{ from, to, kind int }
+
+const (
+	segFields     = iota
+	segMap        // map[string]interface{}
+	segStruct     // struct
+	segPtrStruct  // *struct
+	segIfaceMap   // map[interface{}]interface{}
+	segTypedMap   // map[string]T if the values share a type
+	segNested     // struct with an inline struct inside
+	segIfaceField // interface{}-typed field holding a map
+)
+
+var segNames = [...]string{"fields", "inline map", "inline struct", "inline *struct", "inline map[interface{}]", "inline typed map", "inline struct in inline struct", "inline interface{} field holding a map"}
+
+// layoutOf decodes the layout bits R>>6 = k0 | k1<<3 | k2<<6 | cut1<<9 |
+// cut2<<11: runs [0,cut1) [cut1,cut1+cut2) [cut1+cut2,n) of kinds k0, k1, k2.
+// Empty runs of fields are dropped, empty inline members are kept. A map can
+// not hold a key twice: such a run becomes an inline struct.
+func layoutOf(t *gen.Tree) []seg {
+	n := len(t.Keys)
+	l := t.R >> 6
+	if l <= 0 {
+		return []seg{{0, n, segFields}}
+	}
+	p1 := (l >> 9) & 3
+	p2 := p1 + (l>>11)&3
+	if p1 > n {
+		p1 = n
+	}
+	if p2 > n {
+		p2 = n
+	}
+	var out []seg
+	for i, s := range []seg{{0, p1, l & 7}, {p1, p2, (l >> 3) & 7}, {p2, n, (l >> 6) & 7}} {
+		if s.from == s.to && (s.kind == segFields || i == 1) {
+			continue
+		}
+		switch s.kind {
+		case segMap, segIfaceMap, segTypedMap, segIfaceField:
+			if sameKeyTwice(&gen.Tree{Keys: t.Keys[s.from:s.to]}) {
+				s.kind = segStruct
+			}
+		}
+		out = append(out, s)
+	}
+	return out
+}
+
+func showLayout(t *gen.Tree) string {
+	var p []string
+	for _, s := range layoutOf(t) {
+		p = append(p, fmt.Sprintf("%s %d:%d", segNames[s.kind], s.from, s.to))
+	}
+	return strings.Join(p, " | ")
+}
+
+// nSchemes is the number of naming schemes of the tags other than the primary one.
+const nSchemes = 6
+
+// altTag is the tag text of field i (key keys[i]) under tag j, which is not
+// the primary tag. The scheme rotates with j, so that one struct type carries
+// several schemes.
+//
+//	0 suffix        key + "_" + tag name
+//	1 rotate        the key of the next field
+//	2 ignore-first  field 0 has the option ignore, the others get a suffix
+//	3 unnamed-first field 0 has no name (the lower-cased Go field name f0 applies), the others keep their keys
+//	4 flip          keys kept; inline members are named m<run> instead of being inlined
+//	5 prefix        "p" + separator of the case + key
+func altTag(scheme, j, i int, keys []string, sep string) string {
+	switch (scheme + j) % nSchemes {
+	case 1:
+		return keys[(i+1)%len(keys)]
+	case 2:
+		if i == 0 {
+			return "x,ignore"
+		}
+	case 3:
+		if i == 0 {
+			return ""
+		}
+		return keys[i]
+	case 4:
+		return keys[i]
+	case 5:
+		return "p" + sep + keys[i]
+	}
+	return keys[i] + "_" + tagNames[j]
+}
+
+func (b *builder) fieldTag(i int, keys []string) reflect.StructTag {
+	var p []string
+	for j, name := range tagNames {
+		text := keys[i]
+		if j != b.primary {
+			text = altTag(b.scheme, j, i, keys, b.sep)
+		}
+		p = append(p, name+":"+strconv.Quote(text))
+	}
+	return reflect.StructTag(strings.Join(p, " "))
+}
+
+func (b *builder) inlineTag(run int, word string) reflect.StructTag {
+	var p []string
+	for j, name := range tagNames {
+		text := "," + word
+		if j != b.primary && (b.scheme+j)%nSchemes == 4 {
+			text = fmt.Sprintf("m%d", run)
+		}
+		p = append(p, name+":"+strconv.Quote(text))
+	}
+	return reflect.StructTag(strings.Join(p, " "))
+}
+
+// alwaysInline inlines a field under every tag name.
+var alwaysInline = func() reflect.StructTag {
+	var p []string
+	for _, name := range tagNames {
+		p = append(p, name+`:",squash"`)
+	}
+	return reflect.StructTag(strings.Join(p, " "))
+}()
+
+// viewUnder returns the tree as it reads under tag j: the objects the builder
+// writes as structs have their keys replaced by what tag j says. The result
+// is input to the model only.
+func viewUnder(t *gen.Tree, primary, j, scheme int, sep string) *gen.Tree {
+	if j == primary || !t.IsCont() {
+		return t
+	}
+	out := &gen.Tree{K: t.K, R: t.R}
+	vals := make([]*gen.Tree, len(t.Vals))
+	for i, v := range t.Vals {
+		vals[i] = viewUnder(v, primary, j, scheme, sep)
+	}
+	if !asStruct(t) {
+		out.Keys, out.Vals = t.Keys, vals
+		return out
+	}
+	add := func(to *gen.Tree, i int) {
+		text := altTag(scheme, j, i, t.Keys, sep)
+		name := strings.Split(text, ",")[0]
+		if strings.HasSuffix(text, ",ignore") {
+			return
+		}
+		if name == "" {
+			name = fmt.Sprintf("f%d", i)
+		}
+		to.Keys, to.Vals = append(to.Keys, name), append(to.Vals, vals[i])
+	}
+	for run, s := range layoutOf(t) {
+		to := out
+		if s.kind != segFields && (scheme+j)%nSchemes == 4 {
+			to = gen.Obj()
+			out.Keys, out.Vals = append(out.Keys, fmt.Sprintf("m%d", run)), append(out.Vals, to)
+		}
+		for i := s.from; i < s.to; i++ {
+			switch s.kind {
+			case segFields, segStruct, segPtrStruct, segNested:
+				add(to, i)
+			default:
+				// maps have no tags
+				to.Keys, to.Vals = append(to.Keys, t.Keys[i]), append(to.Vals, vals[i])
+			}
+		}
+	}
+	return out
+}
 
 func ptrTo(v interface{}, depth int) interface{} {
 	for i := 0; i < depth && v != nil; i++ {
@@ -168,7 +399,10 @@ func (b *builder) build(t *gen.Tree) (interface{}, error) {
 	var out interface{}
 	switch t.K {
 	case "obj":
-		if t.R%8 == 3 {
+		if sameKeyTwice(t) && !structable(t) {
+			return nil, fmt.Errorf("an object holds a key twice but can not be written as a struct: %q", t.Keys)
+		}
+		if t.R%8 == 3 && !b.noConfig && !sameKeyTwiceBelow(t) {
 			c, err := ucfg.NewFrom(t.Go(), b.opts...)
 			if err != nil {
 				return nil, err
@@ -180,6 +414,10 @@ func (b *builder) build(t *gen.Tree) (interface{}, error) {
 		vals, err := b.children(t)
 		if err != nil {
 			return nil, err
+		}
+		if asStruct(t) {
+			out = b.structOf(t, vals)
+			break
 		}
 		generic := func() map[string]interface{} {
 			m := make(map[string]interface{}, len(t.Keys))
@@ -204,39 +442,6 @@ func (b *builder) build(t *gen.Tree) (interface{}, error) {
 				}
 				b.use("map[interface{}]")
 				out = m
-			}
-		case 2, 7:
-			ok := len(t.Keys) > 0
-			for _, k := range t.Keys {
-				if !tagSafe.MatchString(k) {
-					ok = false
-				}
-			}
-			if !ok {
-				break
-			}
-			fields := make([]reflect.StructField, len(t.Keys))
-			for i, k := range t.Keys {
-				ft := tIface
-				if vals[i] != nil && (t.R/8)%2 == 1 {
-					ft = reflect.TypeOf(vals[i])
-				}
-				fields[i] = reflect.StructField{Name: fmt.Sprintf("F%d", i), Type: ft, Tag: reflect.StructTag("config:" + strconv.Quote(k))}
-			}
-			sv := reflect.New(reflect.StructOf(fields)).Elem()
-			for i, v := range vals {
-				if v != nil {
-					sv.Field(i).Set(reflect.ValueOf(v))
-				}
-			}
-			if t.R%8 == 7 {
-				p := reflect.New(sv.Type())
-				p.Elem().Set(sv)
-				b.use("*struct")
-				out = p.Interface()
-			} else {
-				b.use("struct")
-				out = sv.Interface()
 			}
 		case 4:
 			m := generic()
@@ -264,7 +469,7 @@ func (b *builder) build(t *gen.Tree) (interface{}, error) {
 			out = generic()
 		}
 	case "list":
-		if t.R%8 == 3 {
+		if t.R%8 == 3 && !b.noConfig && !sameKeyTwiceBelow(t) {
 			c, err := ucfg.NewFrom(t.Go(), b.opts...)
 			if err != nil {
 				return nil, err
@@ -333,6 +538,121 @@ func (b *builder) build(t *gen.Tree) (interface{}, error) {
 		out = ptrTo(out, d)
 	}
 	return out, nil
+}
+
+// structOf writes the object as a struct according to its layout.
+func (b *builder) structOf(t *gen.Tree, vals []interface{}) interface{} {
+	typed := (t.R/8)%2 == 1
+	// fieldsOf makes the tagged fields for keys [from,to) and a setter
+	fieldsOf := func(from, to int) []reflect.StructField {
+		fs := make([]reflect.StructField, 0, to-from)
+		for i := from; i < to; i++ {
+			ft := tIface
+			if vals[i] != nil && typed {
+				ft = reflect.TypeOf(vals[i])
+			}
+			fs = append(fs, reflect.StructField{Name: fmt.Sprintf("F%d", i), Type: ft, Tag: b.fieldTag(i, t.Keys)})
+		}
+		return fs
+	}
+	fill := func(sv reflect.Value, from, to int) {
+		for i := from; i < to; i++ {
+			if vals[i] != nil {
+				sv.Field(i - from).Set(reflect.ValueOf(vals[i]))
+			}
+		}
+	}
+	mapOf := func(from, to int) map[string]interface{} {
+		m := make(map[string]interface{}, to-from)
+		for i := from; i < to; i++ {
+			m[t.Keys[i]] = vals[i]
+		}
+		return m
+	}
+	var fields []reflect.StructField
+	var set []func(sv reflect.Value)
+	layout := layoutOf(t)
+	for run, s := range layout {
+		s := s
+		if s.kind == segFields {
+			at := len(fields)
+			fields = append(fields, fieldsOf(s.from, s.to)...)
+			set = append(set, func(sv reflect.Value) {
+				for i := s.from; i < s.to; i++ {
+					if vals[i] != nil {
+						sv.Field(at + i - s.from).Set(reflect.ValueOf(vals[i]))
+					}
+				}
+			})
+			continue
+		}
+		var member interface{}
+		switch s.kind {
+		case segStruct, segPtrStruct, segNested:
+			sv := reflect.New(reflect.StructOf(fieldsOf(s.from, s.to))).Elem()
+			fill(sv, s.from, s.to)
+			switch s.kind {
+			case segPtrStruct:
+				p := reflect.New(sv.Type())
+				p.Elem().Set(sv)
+				member = p.Interface()
+			case segNested:
+				outer := reflect.New(reflect.StructOf([]reflect.StructField{{Name: "In", Type: sv.Type(), Tag: alwaysInline}})).Elem()
+				outer.Field(0).Set(sv)
+				member = outer.Interface()
+			default:
+				member = sv.Interface()
+			}
+		case segIfaceMap:
+			m := make(map[interface{}]interface{}, s.to-s.from)
+			for i := s.from; i < s.to; i++ {
+				m[t.Keys[i]] = vals[i]
+			}
+			member = m
+		case segTypedMap:
+			if ty, ok := commonType(vals[s.from:s.to]); ok {
+				m := reflect.MakeMapWithSize(reflect.MapOf(reflect.TypeOf(""), ty), s.to-s.from)
+				for i := s.from; i < s.to; i++ {
+					m.SetMapIndex(reflect.ValueOf(t.Keys[i]), reflect.ValueOf(vals[i]))
+				}
+				member = m.Interface()
+			} else {
+				member = mapOf(s.from, s.to)
+			}
+		default:
+			member = mapOf(s.from, s.to)
+		}
+		b.use(segNames[s.kind])
+		ft := reflect.TypeOf(member)
+		if s.kind == segIfaceField {
+			ft = tIface
+		}
+		word := "inline"
+		if (run+t.R/8)%2 == 1 {
+			word = "squash"
+		}
+		at := len(fields)
+		fields = append(fields, reflect.StructField{Name: fmt.Sprintf("M%d", run), Type: ft, Tag: b.inlineTag(run, word)})
+		set = append(set, func(sv reflect.Value) { sv.Field(at).Set(reflect.ValueOf(member)) })
+	}
+	sv := reflect.New(reflect.StructOf(fields)).Elem()
+	for _, f := range set {
+		f(sv)
+	}
+	if len(layout) > 1 || layout[0].kind != segFields {
+		b.use("struct with inline members")
+	}
+	if sameKeyTwice(t) {
+		b.use("struct holding one key twice")
+	}
+	if t.R%8 == 7 {
+		p := reflect.New(sv.Type())
+		p.Elem().Set(sv)
+		b.use("*struct")
+		return p.Interface()
+	}
+	b.use("struct")
+	return sv.Interface()
 }
 
 // preorder lists the nodes of t in pre-order.
